@@ -215,16 +215,24 @@ fn c02_reentrant_strategy(ctx: &Ctx) -> BoxedStrategy<SeqCase> {
     Just(Op::Distinct),
     prop_oneof![Just(crate::val::Fold::Add), Just(crate::val::Fold::Max)].prop_map(Op::Scan),
     Just(Op::Tap),
+    (0i64..3).prop_map(Op::DefaultIfEmpty),
   ];
-  let chain = prop::collection::vec(op, 1..=3).prop_map(|ops| {
+  // optionally an operator that ends the stream by itself on top: there only the bound is
+  // judged (at most n items, one terminal, nothing after it), not the exact items
+  let tail = prop::option::weighted(0.3, prop_oneof![(0usize..3).prop_map(Op::Take), Just(Op::First)]);
+  let chain = (prop::collection::vec(op, 1..=3), tail).prop_map(|(ops, tail)| {
     let mut n = Node::Src(0, Src::Hot(0));
-    for op in ops {
+    for op in ops.into_iter().chain(tail.into_iter()) {
       n = Node::Un(op, Box::new(n));
     }
     n.renumber();
     n
   });
-  let react = (0usize..4, 0i64..4).prop_map(|(at, v)| Reaction { at, what: React::Emit(0, Ev::N(v)) });
+  // what the subscriber does from inside its n-th callback: push an item, or end the source
+  let react = (0usize..4, 0i64..5).prop_map(|(at, v)| Reaction {
+    at,
+    what: React::Emit(0, if v == 4 { Ev::C } else { Ev::N(v) }),
+  });
   (chain, gen::script_wf(5, 1), prop::collection::vec(react, 1..=2), 0u64..4)
     .prop_map(|(root, script, reactions, hash_seed)| {
       let mut actions = vec![Action::Subscribe(0)];
@@ -238,6 +246,34 @@ fn c02_reentrant_strategy(ctx: &Ctx) -> BoxedStrategy<SeqCase> {
 }
 
 fn c02_reentrant_check(_ctx: &Ctx, c: &SeqCase) -> Report {
+  let bound = match &c.case.root {
+    Node::Un(Op::Take(n), _) => Some(*n),
+    Node::Un(Op::First, _) => Some(1),
+    _ => None,
+  };
+  if let Some(n) = bound {
+    let r = run_seq(c);
+    let mut rep = Report::ok();
+    rep.classes = op_classes(&c.case);
+    rep.classes.push("ends-by-itself(bound only)".into());
+    rep.sample = Some(render(c, &r));
+    if !matches!(r.outcome.kind, arx_rt::Kind::Done | arx_rt::Kind::Quiescent) {
+      rep.classes.push(format!("aborted:{:?}", r.outcome.kind));
+      return rep;
+    }
+    rep.nontrivial = !r.log.reactions_fired.is_empty();
+    let t = r.trace(0);
+    let items = t.iter().filter(|e| matches!(e, Rk::N(_))).count();
+    let terminals = t.iter().filter(|e| !matches!(e, Rk::N(_))).count();
+    let after = t.iter().position(|e| !matches!(e, Rk::N(_))).map_or(false, |i| i + 1 < t.len());
+    if items > n || terminals > 1 || after {
+      rep.fail = Some(format!(
+        "{} item(s) and {} terminal(s) through an operator that lets at most {} item(s) pass | {}",
+        items, terminals, n, render(c, &r)
+      ));
+    }
+    return rep;
+  }
   let out = diff(c, DiffOpts::default());
   let mut rep = out.rep;
   if let Some(r) = &out.real {
